@@ -44,12 +44,16 @@ func (s *PacketStore) Save(pkt packet.Generic) {
 	if ok {
 		s.packets[id] = pkt
 	}
+
+	verifHook(s, "save", uint16(id), pkt)
 }
 
 // Lookup will retrieve a packet from the store.
 func (s *PacketStore) Lookup(id packet.ID) packet.Generic {
 	s.mutex.RLock()
 	defer s.mutex.RUnlock()
+
+	verifHook(s, "lookup", uint16(id), s.packets[id])
 
 	// get packet
 	return s.packets[id]
@@ -62,6 +66,8 @@ func (s *PacketStore) Delete(id packet.ID) {
 
 	// delete packet
 	delete(s.packets, id)
+
+	verifHook(s, "delete", uint16(id), nil)
 }
 
 // All will return all packets currently saved in the store.
@@ -75,6 +81,8 @@ func (s *PacketStore) All() []packet.Generic {
 		all = append(all, pkt)
 	}
 
+	verifHook(s, "all", 0, all)
+
 	return all
 }
 
@@ -85,4 +93,6 @@ func (s *PacketStore) Reset() {
 
 	// reset packets
 	s.packets = make(map[packet.ID]packet.Generic)
+
+	verifHook(s, "reset", 0, nil)
 }
